@@ -62,14 +62,16 @@ Print Assumptions C03_linearizable.
 
 (* (2) after the scan passed the key, the commit, and with every operation answered: the source holds nothing and the
    destination holds exactly what the register holds after all linearized operations: the value of the last write, or
-   nothing after a delete (final_value folds the linearization points) *)
+   nothing after a delete (final_value folds the linearization points), and every linearized operation has been
+   acknowledged to its client with the reply computed at its linearization point *)
 Theorem C03_final : forall s0 evs st,
   wf_init s0 -> run (init s0) evs = Some st ->
   c11_ok (init s0) evs = true -> commit_ok (init s0) evs = true -> classified_ok (init s0) evs = true ->
   is_passed (scan (gl st)) = true -> committed (gl st) = true -> quiescent st = true ->
   src (gl st) = None /\
   register_spec (val s0) (history (init s0) evs) = Some (val (dst (gl st))) /\
-  val (dst (gl st)) = final_value (val s0) (history (init s0) evs).
+  val (dst (gl st)) = final_value (val s0) (history (init s0) evs) /\
+  (forall i k r, In (HLin i k r) (history (init s0) evs) -> In (HRep i (ROk r)) (history (init s0) evs)).
 Proof. exact final_state. Qed.
 Check C03_final : forall s0 evs st,
   wf_init s0 -> run (init s0) evs = Some st ->
@@ -77,7 +79,8 @@ Check C03_final : forall s0 evs st,
   is_passed (scan (gl st)) = true -> committed (gl st) = true -> quiescent st = true ->
   src (gl st) = None /\
   register_spec (val s0) (history (init s0) evs) = Some (val (dst (gl st))) /\
-  val (dst (gl st)) = final_value (val s0) (history (init s0) evs).
+  val (dst (gl st)) = final_value (val s0) (history (init s0) evs) /\
+  (forall i k r, In (HLin i k r) (history (init s0) evs) -> In (HRep i (ROk r)) (history (init s0) evs)).
 Print Assumptions C03_final.
 
 (* (3) every transfer step (the RESTORE of the pull path, of the fast and slow push paths and of the scanner) either
